@@ -318,8 +318,14 @@ func (p *pair) generate(n int, addl []byte) string {
 			return "model"
 		}
 		c.Event("output_bytes_compared", n)
-		if !c.Eq(fmt.Sprintf("%s Generate(n=%d, addl=%d) at reseed_counter=%d", p.g.name(), n, len(addl), ctr), out, want) {
-			p.c.Detail("history", strings.Join(p.trace, "; "))
+		c.Event("compare", 1)
+		if !bytes.Equal(out, want) {
+			off := 0
+			for off < n && out[off] == want[off] {
+				off++
+			}
+			p.fail("mismatch", "%s Generate(n=%d, addl=%d) at reseed_counter=%d: output differs from the model from offset %d: got %s want %s",
+				p.g.name(), n, len(addl), ctr, off, hexs(out[off:]), hexs(want[off:]))
 			p.dead = true // state unknown from here on
 			return "wrong"
 		}
